@@ -702,7 +702,11 @@ pub fn build_env(ctx: &Ctx) -> Result<Env, String> {
             return Err(format!("the statement's exemption {} is not a registered route any more - update the exemption list", e));
         }
     }
-    let scope_routes: Vec<String> = templates.iter().map(|t| spell::instantiate(t, "x/y")).filter(|p| in_scope(p) && !is_exempt(p)).collect();
+    // tail patterns (`/rnacos/{_:.*}`) are instantiated twice: one tail reaches into the scope
+    let mut scope_routes: Vec<String> =
+        templates.iter().flat_map(|t| [spell::instantiate(t, "x/y"), spell::instantiate(t, "v1/zz")]).filter(|p| in_scope(p) && !is_exempt(p)).collect();
+    scope_routes.sort();
+    scope_routes.dedup();
     for p in &scope_routes {
         if p.ends_with("/login") {
             return Err(format!("route {} looks like a login endpoint that the statement's exemption list does not name", p));
@@ -832,7 +836,9 @@ fn fin(env: Option<&Env>) -> Finish {
 
 pub fn main(ctx: &Ctx) -> i32 {
     let code = main_inner(ctx);
-    std::fs::remove_dir_all(work_dir_path(ctx)).ok();
+    if std::env::var("RNV_KEEP_WORK").is_err() {
+        std::fs::remove_dir_all(work_dir_path(ctx)).ok();
+    }
     code
 }
 
@@ -850,7 +856,11 @@ fn main_inner(ctx: &Ctx) -> i32 {
     stats.set_extra("routes_in_scope", serde_json::json!(env.scope_routes));
     stats.set_extra(
         "routes_out_of_scope_or_exempt",
-        serde_json::json!(env.all_templates.iter().filter(|t| !env.scope_routes.contains(&spell::instantiate(t, "x/y"))).collect::<Vec<_>>()),
+        serde_json::json!(env
+            .all_templates
+            .iter()
+            .filter(|t| !env.scope_routes.contains(&spell::instantiate(t, "x/y")) && !env.scope_routes.contains(&spell::instantiate(t, "v1/zz")))
+            .collect::<Vec<_>>()),
     );
     if let Some(p) = &ctx.replay {
         let case: Case = match read_replay(p) {
@@ -913,7 +923,7 @@ fn main_inner(ctx: &Ctx) -> i32 {
     if failure.is_none() {
         let env2 = env.clone();
         let t0 = Instant::now();
-        failure = run_cases(ctx, &stats, http_case_strategy, ctx.tier.pick(25_000, 500_000), threads, 400, move |c: &Case| run_case(&env2, c));
+        failure = run_cases(ctx, &stats, http_case_strategy, ctx.tier.pick(25_000, 1_500_000), threads, 400, move |c: &Case| run_case(&env2, c));
         stats.set_extra("wall_random_s", serde_json::json!(t0.elapsed().as_secs_f64()));
     }
     stats.excluded_known.store(env.excluded_known.load(Ordering::Relaxed), Ordering::Relaxed);
